@@ -41,8 +41,11 @@ text.append("False-alarm test: fifteen behaviour-preserving refactorings written
 text.append("texts; `seeded/equivalent/e01..e15`: non-recursive iterators, in-place detach by identity, restructured loop/duplicate checks,")
 text.append("re-implemented navigation attributes, Resolver get/glob/cache rewrites, RenderTree without recursion, Walker by index arithmetic,")
 text.append("non-recursive dict export/import, attribute insertion order of `Node` changed, DOT/Mermaid edge statements emitted in another order,")
-text.append("escaping by `str.replace`, ...) were applied one at a time and all twenty quick checks run against each: 300 runs, no alarm")
-text.append("(`tools/eq_eval.py`, `seeded/equivalent_results.json, seeded/equivalent2_results.json`).  Two over-strict oracles had been found and loosened before by such an")
+text.append("escaping by `str.replace`, ...) and twelve more aggressive ones (`seeded/equivalent2/f01..f12`: memoised `path`/`height` with correct")
+text.append("invalidation, children stored in an id-keyed dict, both mixins sharing one implementation module, renamed private attributes,")
+text.append("merged detach/attach, all five iterators without recursion, DOT and Mermaid sharing one eager line builder, ...) were applied one at a")
+text.append("time and all twenty quick checks run against each: 540 runs, no alarm")
+text.append("(`tools/eq_eval.py`, `seeded/equivalent_results.json`, `seeded/equivalent2_results.json`).  Over-strict oracles had been found and loosened before by such an")
 text.append("experiment (key order of plain dicts in C10/C11; iterator-protocol details in C05; exact word order of the CountError message in C14).")
 text.append("")
 text.append("| change | what it is / what it needs to manifest (from the author's notes) | caught by own check | witness classes | also caught by |")
